@@ -1,6 +1,6 @@
 (** C28 — the chain invariant; it holds initially and is preserved by attaching a block. *)
 From Coq Require Import List ZArith NArith Bool Lia.
-From C33 Require Import C28.Model C28.Spec C28.Defs C28.ProofsLib C28.ProofsChk.
+From C33 Require Import C28.Model C28.Spec C28.Defs C28.ProofsLib C28.ProofsGrp C28.ProofsChk.
 Import ListNotations.
 Open Scope Z_scope.
 
@@ -83,8 +83,7 @@ Section Invariant.
     inv_idx : index_exact s;
     inv_cache : cache_exact c s;
     inv_time : forall x, In x (chain s) -> 0 < b_time x;
-    inv_chk : forall x t, In x (chain s) -> 0 < b_h x -> In t (b_txs x) ->
-                check_tx c (b_h x) (b_time x) t = true;
+    inv_okl : forall x, In x (chain s) -> 0 < b_h x -> okl c (b_h x) (b_time x) (b_txs x);
     inv_gen : forall x, In x (chain s) -> b_h x = 0 -> b_txs x = []
   }.
 
@@ -103,8 +102,15 @@ Section Invariant.
       + intros [].
       + intros [b [Hb [_ He]]]. destruct Hb as [Hb|[]]. subst b. rewrite Hg3 in He. exact He.
     - intros x [Hx|[]]. subst x. exact Hg2.
-    - intros x t [Hx|[]] Hh Ht. subst x. lia.
+    - intros x [Hx|[]] Hh. subst x. lia.
     - intros x [Hx|[]] _. subst x. exact Hg3.
+  Qed.
+
+  Lemma inv_live : forall s x t, Inv s -> In x (chain s) -> 0 < b_h x -> In t (b_txs x) ->
+    is_expire c t (b_h x) (b_time x) = false.
+  Proof.
+    intros s x t HI Hx Hh Ht.
+    exact (okl_live c (b_h x) (b_time x) (b_txs x) Hh (inv_time s HI x Hx) (inv_okl s HI x Hx Hh) t Ht).
   Qed.
 
   (** every transaction-bearing block of the chain has a positive height *)
@@ -122,7 +128,7 @@ Section Invariant.
     a_link : linked s b = true;
     a_nd : NoDup (map th (b_txs b));
     a_has : forall t, In t (b_txs b) -> has_tx s t = false;
-    a_chk : forall t, In t (b_txs b) -> check_tx c (b_h b) (b_time b) t = true;
+    a_okl : okl c (b_h b) (b_time b) (b_txs b);
     a_U : incl (b_txs b) U;
     a_time : parent_time s <= b_time b
   }.
@@ -149,7 +155,8 @@ Section Invariant.
     intros s b t t' HI HA Ht Ht' He.
     destruct (att_facts s b HI HA) as [p [r [Hc [Hb [Hp0 [Hpl [Hbt Htip]]]]]]].
     pose proof (a_has s b HA t Ht) as Hhas.
-    pose proof (a_chk s b HA t Ht) as Hchk.
+    assert (Hbp0 : 0 < b_h b) by lia.
+    pose proof (okl_live c (b_h b) (b_time b) (b_txs b) Hbp0 Hbt (a_okl s b HA) t Ht) as Hchk.
     assert (HtU : In t U) by (apply (a_U s b HA); exact Ht).
     assert (HtU' : In t' U) by (apply (inv_U s HI); exact Ht').
     destruct (HU t t' HtU HtU') as [Hk _]. destruct (Hk He) as [Hk1 Hk2].
@@ -159,13 +166,11 @@ Section Invariant.
       assert (Hin : In (tx_height (texp t), tk t) (cache s)).
       { apply (inv_cache s HI). exists x. split; [exact Hx|]. split.
         - pose proof (inv_txs_pos s x t' HI Hx Hxt) as Hxp.
-          pose proof (inv_time s HI x Hx) as Hxt0.
-          pose proof (inv_chk s HI x t' Hx Hxp Hxt) as Hxc.
+          pose proof (inv_live s x t' HI Hx Hxp Hxt) as Hxc.
           assert (Hg' : tx_height (texp t') > 0) by (rewrite <- Hk2; lia).
-          pose proof (check_window c (b_h x) (b_time x) t' Hxp Hxt0 Hxc Hg') as Hw'.
-          assert (Hbp : 0 < b_h b) by lia.
+          pose proof (live_window c (b_h x) (b_time x) t' Hxc Hg') as Hw'.
           assert (Hg : tx_height (texp t) > 0) by lia.
-          pose proof (check_window c (b_h b) (b_time b) t Hbp Hbt Hchk Hg) as Hw.
+          pose proof (live_window c (b_h b) (b_time b) t Hchk Hg) as Hw.
           rewrite <- Hk2 in Hw'. lia.
         - apply ents_In. exists t'. split; [exact Hxt|]. rewrite <- Hk2, <- Hk1.
           split; [lia | reflexivity]. }
@@ -283,9 +288,9 @@ Section Invariant.
     - unfold attach. cbn [chain]. intros x [Hx|Hx].
       + subst x. exact Hbt.
       + exact (inv_time s HI x Hx).
-    - unfold attach. cbn [chain]. intros x t [Hx|Hx] Hh Ht.
-      + subst x. exact (a_chk s b HA t Ht).
-      + exact (inv_chk s HI x t Hx Hh Ht).
+    - unfold attach. cbn [chain]. intros x [Hx|Hx] Hh.
+      + subst x. exact (a_okl s b HA).
+      + exact (inv_okl s HI x Hx Hh).
     - unfold attach. cbn [chain]. intros x [Hx|Hx] Hh.
       + subst x. lia.
       + exact (inv_gen s HI x Hx Hh).
